@@ -253,6 +253,15 @@ def run(F, ck, tier):
                     continue
                 if c['op'] == 'Eq' and any(s_.get('k') == 'Lit' and str(s_.get('v')) == '0' for s_ in (c['l'], c['r'])):
                     continue
+                lit_ = [s_ for s_ in (c['l'], c['r']) if s_.get('k') == 'Lit' and s_.get('lk') == 'int']
+                loc_ = [s_ for s_ in (c['l'], c['r']) if s_.get('k') == 'Local']
+                if len(lit_) == 1 and len(loc_) == 1:
+                    v_ = int(lit_[0]['v'])
+                    op_ = c['op'] if c['l'] is loc_[0] else {'Lt': 'Gt', 'Le': 'Ge', 'Gt': 'Lt', 'Ge': 'Le'}.get(c['op'], c['op'])
+                    if (op_ == 'Lt' and v_ <= 1) or (op_ == 'Le' and v_ <= 0):
+                        continue    # x < 1, x <= 0 on an unsigned quantity: zero only
+                    bad.append(c.get('s'))
+                    continue
                 d = diffs.get(id(c))
                 if d is not None and d.get((), 0) == 0 and all(v < 0 for m, v in d.items() if m != ()):
                     continue        # x <= 0
